@@ -123,6 +123,7 @@ pub fn run(args: &Args) -> i32 {
         let mut ledger_keep = true;
         let mut ledger_streams: Vec<u64> = vec![]; // non-ignored held streams we know of
         let mut ledger_opens = 0u64; // opens commanded and not yet seen resolved
+        let mut half_closes = 0u64;
         let mut idle_stamp: Option<Instant> = None;
         let mut was_busy_then_idle = false;
         let mut sig = Sig::new().u64(t.as_millis() as u64);
@@ -175,7 +176,7 @@ pub fn run(args: &Args) -> i32 {
             let (held, outstanding): (Vec<u64>, usize) = h0.with(|x| (x.streams.keys().filter(|t| !x.ignored.contains(t)).copied().collect(), x.outstanding_opens.len()));
             ledger_streams = held;
             ledger_opens = outstanding as u64 + h0.with(|x| x.cmds.iter().filter(|c| matches!(c, HCmd::Open { .. })).count() as u64);
-            let op = rng.weighted(&[10, 10, 6, 8, 8, 8, 30]);
+            let op = rng.weighted(&[10, 10, 6, 8, 8, 8, 6, 30]);
             sig.push_u64(op as u64);
             let before = Instant::now();
             let busy_before_op = busy(&h0);
@@ -216,6 +217,15 @@ pub fn run(args: &Args) -> i32 {
                     ops_log.push(format!("remote_open({tag})"));
                     h1.cmd(HCmd::Open { proto: "/probe/0".into(), tag });
                     // arrival time unknown: not part of the ledger; if it arrives the task observes busy and the stamp is discarded
+                }
+                6 => {
+                    // the handler closes the write half of a stream it keeps holding (request sent, response awaited):
+                    // the stream stays active, the ledger does not change
+                    if let Some(tg) = ledger_streams.first().copied() {
+                        ops_log.push(format!("half_close({tg})"));
+                        h0.cmd(HCmd::HalfClose(tg));
+                        half_closes += 1;
+                    }
                 }
                 _ => {
                     let k = rng.range(1, 30);
@@ -314,6 +324,7 @@ pub fn run(args: &Args) -> i32 {
         check.case(sig.0, was_busy_then_idle && keepalive_close);
         check.count("keepalive_timeout_closes_observed", keepalive_close as u64);
         check.count("bounded_progress_cases", progress_case as u64);
+        check.count("half_closed_streams_still_held", half_closes);
         check.distinct("distinct_interleavings", net.trace.0);
         if check.want_sample() && keepalive_close && was_busy_then_idle {
             check.sample(wit);
